@@ -68,7 +68,19 @@ def runCase (payload : String) : String :=
       let nt := if ts.length ≥ 3 then "\tnt=1" else ""
       match parseToks ts with
       | (some t, none) => "OK " ++ treeText t ++ " wf=" ++ b01 (WellFormed t) ++ tail ++ nt
-      | (none, some (.perr kind l c)) => "ERR " ++ kindText kind ++ " " ++ toString l ++ " " ++ toString c ++ tail ++ nt
+      | (none, some (.perr kind l c)) =>
+        let line := "ERR " ++ kindText kind ++ " " ++ toString l ++ " " ++ toString c ++ tail
+        -- known finding `unexpected-end-unpositioned`: a premature end is reported without a position
+        -- (Line 0, Pos 0); the property demands a positioned error: the position of the EOF token
+        if kind = "Unexpected end" ∧ l = 0 then
+          let eof := match (ts.filter (·.id = 1)).getLast? with
+            | some t => some t
+            | none => ts.getLast?
+          match eof with
+          | some t => line ++ nt ++ "\tkf=unexpected-end-unpositioned\tspec=ERR UnexpectedEnd " ++ toString t.line ++ " "
+              ++ toString t.col ++ tail
+          | none => line ++ nt
+        else line ++ nt
       | (none, some .panic) => "PANIC-PREDICTED" ++ tail
       | (none, some .fuel) => "OUT-OF-FUEL" ++ tail
       | (some _, some _) => "BOTH" ++ tail
